@@ -638,9 +638,21 @@ example :
   `editInsert` on the fast and the slow path, the callback), by reading and decoding a command in emacs and vi mode
   (numeric-argument prompts included), by every command of `execute`, by completion (circular and listing), by
   incremental search (inside it `ShA`: the search prompt is the prompt on display; every way out repaints under the
-  own prompt since the repair of D42), by the dispatch loop and the main loop — *given* that the line-buffer
-  operations are faithful (`LBFaithful`: "reports no change ⇒ changed nothing").  Each obligation of `C02_StepOK`
+  own prompt since the repair of D42), by the dispatch loop and the main loop; that the line-buffer operations are
+  faithful (`LBFaithful`: "reports no change ⇒ changed nothing") is `C02_lbFaithful`.  Each obligation of `C02_StepOK`
   is discharged where the operation is logged; no replay step panics. -/
+
+/-- "The line-buffer operations are faithful" (`LBFaithful`, `Rl/Lemmas/RenderLogExec.lean`): a motion leaves the
+    text alone and answers `false` only if the cursor did not move; an edit that answers "nothing changed"
+    (`false` / `None`) changed neither text nor cursor — for `yank`, from every state; an `Undo` that undid nothing
+    left the line alone.  Statements about `Rl/LineBuffer.lean` / `Rl/Undo.lean` alone. -/
+def C02_lbFaithful_statement : Prop := ∀ (S : Segmenter) (U : UData), LBFaithful S U
+
+/-- … a theorem since the repairs of D44 (`yank_pop` asks before it removes) and D45 (`edit_yank` restores the
+    cursor it saved, so nothing is asked of a step back any more): the eleven motions, `kill` for every movement,
+    `transpose_chars`, `edit_word`, `transpose_words`, `indent`, `yank`, `yank_pop`, `delete` and
+    `Changeset::undo`, for every segmenter and every Unicode data (`Rl/Lemmas/LBFaithful.lean`). -/
+theorem C02_lbFaithful : C02_lbFaithful_statement := fun S U => lbFaithful S U
 
 /-- the render log of a read, oldest first, without the `writeln` that follows `readline_edit` -/
 def C02_editorLog (S : Segmenter) (U : UData) (cfg : EdCfg) (ring : KillRing) (left right : Text) (inp : Input) :
@@ -652,7 +664,7 @@ def C02_editorLog (S : Segmenter) (U : UData) (cfg : EdCfg) (ring : KillRing) (l
     invariant of C03 / C17). -/
 theorem C02_editor_log_coherent (S : Segmenter) (U : UData) (cfg : EdCfg) (ring : KillRing) (left right : Text)
     (inp : Input) (hc : 2 ≤ cfg.cols) (hprompt : C02_Plain S (edR U cfg) cfg.prompt)
-    (hctl : ∀ c, isC0Control c = true → U.cwidth c = 0) (hlb : LBFaithful S U)
+    (hctl : ∀ c, isC0Control c = true → U.cwidth c = 0)
     (hfine : LogFine S (edR U cfg) cfg.prompt (C02_editorLog S U cfg ring left right inp).reverse) :
     ∃ rs g, RepFrom S (edR U cfg) cfg.prompt (RS.init S (edR U cfg) cfg.prompt) {}
         (C02_editorLog S U cfg ring left right inp) rs g ∧
@@ -660,6 +672,7 @@ theorem C02_editor_log_coherent (S : Segmenter) (U : UData) (cfg : EdCfg) (ring 
         (C02_editorLog S U cfg ring left right inp) ∧
       RS.run S (edR U cfg) cfg.prompt (RS.init S (edR U cfg) cfg.prompt)
         (C02_editorLog S U cfg ring left right inp) = (rs, false) := by
+  have hlb : LBFaithful S U := C02_lbFaithful S U
   have hnext := fun fuel sea iep => pres_nextCmd (S := S) (U := U) (cfg := cfg) hc hprompt fuel sea iep
   have hw := readline_prog_logOK hc hprompt hnext (fun fuel => pres_completeLine hc hprompt hlb hnext fuel) hctl
     (fun cmd => pres_execute hc hprompt hlb hctl cmd) ring left right inp
@@ -681,7 +694,7 @@ theorem C02_editor_log_coherent (S : Segmenter) (U : UData) (cfg : EdCfg) (ring 
     hint the callback sees or without any hint): `C02_history` applied to the log the editor model produces. -/
 theorem C02_editor_shows (S : Segmenter) (U : UData) (cfg : EdCfg) (ring : KillRing) (left right : Text)
     (inp : Input) (hc : 2 ≤ cfg.cols) (hprompt : C02_Plain S (edR U cfg) cfg.prompt)
-    (hctl : ∀ c, isC0Control c = true → U.cwidth c = 0) (hlb : LBFaithful S U)
+    (hctl : ∀ c, isC0Control c = true → U.cwidth c = 0)
     (hfine : LogFine S (edR U cfg) cfg.prompt (C02_editorLog S U cfg ring left right inp).reverse)
     (ops rest : List RenderOp) (line : Text) (pos : Nat) (hint : Option Text) (b a : Text)
     (hlog : C02_editorLog S U cfg ring left right inp = (ops ++ [.sync line pos hint]) ++ rest)
@@ -693,106 +706,8 @@ theorem C02_editor_shows (S : Segmenter) (U : UData) (cfg : EdCfg) (ring : KillR
        Shows (edR U cfg).cw ((Term.blank (edR U cfg).cols).feed (edR U cfg).cw
           (RS.run S (edR U cfg) cfg.prompt (RS.init S (edR U cfg) cfg.prompt)
             (ops ++ [.sync line pos hint])).1.segs.reverse.flatten) p b a []) := by
-  obtain ⟨rs, g, hrep, _, _⟩ := C02_editor_log_coherent S U cfg ring left right inp hc hprompt hctl hlb hfine
+  obtain ⟨rs, g, hrep, _, _⟩ := C02_editor_log_coherent S U cfg ring left right inp hc hprompt hctl hfine
   rw [hlog] at hrep
   obtain ⟨rs1, g1, h1⟩ := hrep.prefix
   have hco := h1.coherent
   exact C02_history S (edR U cfg) cfg.prompt ops line pos hint b a hc hprompt hsplit hco.1 (by rw [hco.2])
-
-/-- FULL statement "the line-buffer operations are faithful" (`LBFaithful`, `Rl/Lemmas/RenderLogExec.lean`): a motion
-    leaves the text alone and answers `false` only if the cursor did not move; an edit that answers "nothing
-    changed" (`false` / `None`) changed neither text nor cursor; an `Undo` that undid nothing left the line alone; a
-    refused paste after the step forward of `Anchor::After` and the step back end where the command started.
-    NOT a theorem on the current tree (`C02_lbFaithful_counterexample`): nineteen of its twenty-one obligations are
-    proved for every segmenter and every Unicode data (`C02_lbFaithful_partial`); the two about a paste that
-    `LineBuffer::yank` refuses are false (findings F-C02-yank-pop-refused, F-C02-yank-after-refused). -/
-def C02_lbFaithful_statement : Prop := ∀ (S : Segmenter) (U : UData), LBFaithful S U
-
-/-- Everything in `LBFaithful` except the two obligations about a refused paste (`YankFaithful`): the eleven
-    motions, `kill` for every movement, `transpose_chars`, `edit_word`, `transpose_words`, `indent`, `yank`, `delete`
-    and `Changeset::undo` are faithful, for every segmenter and every Unicode data. -/
-theorem C02_lbFaithful_partial (S : Segmenter) (U : UData) (hy : YankFaithful S U) : LBFaithful S U :=
-  lbFaithful_of_yank S U hy
-
-/-- finding F-C02-yank-pop-refused: `LineBuffer::yank_pop(k, text)` removes the `k` bytes of the previous paste
-    and only then calls `yank`, which refuses an empty text (and a text that does not fit a fixed capacity): the
-    answer is `None`, the line has changed, and `edit_yank_pop` repaints nothing.  Witness (every segmenter):
-    "abc", cursor 3, `yank_pop(3, "")` → "", cursor 0, `None`; on the real code:
-    `lb 4096 97,98,99 3 s yp:3:-` and `lb 2 97,98 2 s yp:2:120,121,122`. -/
-theorem C02_yankPop_counterexample (S : Segmenter) (U : UData) :
-    ¬ ∀ k t, EditOK (LB.yankPop S U k t) Option.isSome := yankPop_not_faithful S U
-
-/-- `yank_pop` is faithful whenever the new text cannot be refused (not empty; fits, or the buffer may grow) -/
-theorem C02_yankPop_faithful_of_fits (S : Segmenter) (U : UData) (k : Nat) (t : Text) (lb lb' : LB)
-    (r : Option Bool) (ns : List Notif) (ht : t ≠ [])
-    (hfit : lb.canGrow = true ∨ blen lb.buf - k + blen t ≤ lb.cap)
-    (h : LB.yankPop S U k t lb = .ok (r, lb', ns)) (hr : r.isSome = false) :
-    lb'.buf = lb.buf ∧ lb'.pos = lb.pos :=
-  faithful_yankPop_of_fits S U k t lb lb' r ns ht hfit h hr
-
-/-- finding F-C02-yank-after-refused: `edit_yank(Anchor::After)` steps forward one cluster, and when the paste is
-    refused steps back one cluster — which is another position when the cursor stood inside a cluster (as after
-    `readline_with_initial(("e", "\u{301}x"))`): "e◌́x", cursor 1 → 3 → 0; on the real code:
-    `lb 4096 101,769,120 1 s mf:1 yk:-:1 mb:1`. -/
-theorem C02_yankAfter_counterexample (U : UData) :
-    ¬ ∀ (t : Text) (n : Nat) (lb l1 l2 l3 : LB) (r1 r3 : Bool) (ns1 ns2 ns3 : List Notif),
-      IsBoundary lb.buf lb.pos → LB.moveForward markSeg U 1 lb = .ok (r1, l1, ns1) →
-      LB.yank markSeg U t n l1 = .ok (none, l2, ns2) →
-      (if r1 then LB.moveBackward markSeg U 1 l2 = .ok (r3, l3, ns3) else l3 = l2) →
-      l3.buf = lb.buf ∧ l3.pos = lb.pos := yankAfter_not_faithful U
-
-/-- the `yankAfter` obligation holds when the paste cannot be refused (its premise is contradictory) … -/
-theorem C02_yankAfter_faithful_of_fits (S : Segmenter) (U : UData) (t : Text) (n : Nat) (lb l1 l2 l3 : LB)
-    (r1 : Bool) (ns1 ns2 : List Notif) (ht : t ≠ [])
-    (hfit : lb.canGrow = true ∨ blen lb.buf + blen t * n ≤ lb.cap)
-    (h1 : LB.moveForward S U 1 lb = .ok (r1, l1, ns1)) (h2 : LB.yank S U t n l1 = .ok (none, l2, ns2)) :
-    l3.buf = lb.buf ∧ l3.pos = lb.pos :=
-  faithful_yankAfter_of_fits S U t n lb l1 l2 l3 r1 false ns1 ns2 [] ht hfit h1 h2
-
-/-- … and, whatever the paste does, for a stable segmenter when the cursor is on a cluster boundary of the line -/
-theorem C02_yankAfter_faithful_of_stable (S : Segmenter) (U : UData) (hS : S.Stable) (t : Text) (n : Nat)
-    (lb l1 l2 l3 : LB) (r1 r3 : Bool) (ns1 ns2 ns3 : List Notif) (k : Nat)
-    (hk : lb.pos = offOf (S.seg lb.buf) k)
-    (h1 : LB.moveForward S U 1 lb = .ok (r1, l1, ns1)) (h2 : LB.yank S U t n l1 = .ok (none, l2, ns2))
-    (h3 : if r1 then LB.moveBackward S U 1 l2 = .ok (r3, l3, ns3) else l3 = l2) :
-    l3.buf = lb.buf ∧ l3.pos = lb.pos :=
-  faithful_yankAfter_of_stable S U hS t n lb l1 l2 l3 r1 r3 ns1 ns2 ns3 k hk h1 h2 h3
-
-/-- a concrete Unicode-data record -/
-def C02_exU : UData := ⟨fun c => c.isAlphanum, fun c => c == ' ', fun c => [c], fun c => [c], fun t => t.length, fun _ => 1⟩
-
-/-- the full statement is refuted, for every segmenter and every Unicode data, by the `yank_pop` witness -/
-theorem C02_lbFaithful_counterexample : ¬ C02_lbFaithful_statement :=
-  fun h => not_lbFaithful charSeg C02_exU (h charSeg C02_exU)
-
-/-- `C02_editor_log_coherent` with the proved part of `LBFaithful` discharged: what remains is `YankFaithful`, the
-    two obligations about a refused paste (refuted on the current code: `not_yankFaithful`; they become
-    provable once `yank_pop` asks before it removes and `edit_yank` restores the cursor it saved) -/
-theorem C02_editor_log_coherent' (S : Segmenter) (U : UData) (cfg : EdCfg) (ring : KillRing) (left right : Text)
-    (inp : Input) (hc : 2 ≤ cfg.cols) (hprompt : C02_Plain S (edR U cfg) cfg.prompt)
-    (hctl : ∀ c, isC0Control c = true → U.cwidth c = 0) (hy : YankFaithful S U)
-    (hfine : LogFine S (edR U cfg) cfg.prompt (C02_editorLog S U cfg ring left right inp).reverse) :
-    ∃ rs g, RepFrom S (edR U cfg) cfg.prompt (RS.init S (edR U cfg) cfg.prompt) {}
-        (C02_editorLog S U cfg ring left right inp) rs g ∧
-      C02_Coherent S (edR U cfg) cfg.prompt (RS.init S (edR U cfg) cfg.prompt) {}
-        (C02_editorLog S U cfg ring left right inp) ∧
-      RS.run S (edR U cfg) cfg.prompt (RS.init S (edR U cfg) cfg.prompt)
-        (C02_editorLog S U cfg ring left right inp) = (rs, false) :=
-  C02_editor_log_coherent S U cfg ring left right inp hc hprompt hctl (C02_lbFaithful_partial S U hy) hfine
-
-theorem C02_editor_shows' (S : Segmenter) (U : UData) (cfg : EdCfg) (ring : KillRing) (left right : Text)
-    (inp : Input) (hc : 2 ≤ cfg.cols) (hprompt : C02_Plain S (edR U cfg) cfg.prompt)
-    (hctl : ∀ c, isC0Control c = true → U.cwidth c = 0) (hy : YankFaithful S U)
-    (hfine : LogFine S (edR U cfg) cfg.prompt (C02_editorLog S U cfg ring left right inp).reverse)
-    (ops rest : List RenderOp) (line : Text) (pos : Nat) (hint : Option Text) (b a : Text)
-    (hlog : C02_editorLog S U cfg ring left right inp = (ops ++ [.sync line pos hint]) ++ rest)
-    (hsplit : splitAtByte line pos = some (b, a)) :
-    ∃ p, (p = cfg.prompt ∨ C02_IsSearchPrompt p) ∧
-      (Shows (edR U cfg).cw ((Term.blank (edR U cfg).cols).feed (edR U cfg).cw
-          (RS.run S (edR U cfg) cfg.prompt (RS.init S (edR U cfg) cfg.prompt)
-            (ops ++ [.sync line pos hint])).1.segs.reverse.flatten) p b a (hint.getD []) ∨
-       Shows (edR U cfg).cw ((Term.blank (edR U cfg).cols).feed (edR U cfg).cw
-          (RS.run S (edR U cfg) cfg.prompt (RS.init S (edR U cfg) cfg.prompt)
-            (ops ++ [.sync line pos hint])).1.segs.reverse.flatten) p b a []) :=
-  C02_editor_shows S U cfg ring left right inp hc hprompt hctl (C02_lbFaithful_partial S U hy) hfine ops rest line
-    pos hint b a hlog hsplit
